@@ -125,6 +125,15 @@ def handle (ws : List String) : String :=
     match parseBOpen rest with
     | some b => (match finish b with | .ok bs => s!"ok {hexOrDash bs}" | .err => "err" | .panic => "panic")
     | none => "bad-op"
+  | "bopent" :: n :: rest =>
+    -- `OpenBuilder::from_target` on a Vec that already holds n octets: the target is emptied
+    -- first (`target.truncate(0)`, as KeepaliveBuilder does), so the result is that of `bopen`
+    match n.toNat?, parseBOpen rest with
+    | some k, some b =>
+      if k ≤ 4096 ∧ toString k = n then
+        (match finish b with | .ok bs => s!"ok {hexOrDash bs}" | .err => "err" | .panic => "panic")
+      else "bad-op"
+    | _, _ => "bad-op"
   | ["bnotif", c, s, d] =>
     match u8Arg c, u8Arg s with
     | some c, some s =>
